@@ -15,7 +15,7 @@ import (
 // C07 — read-only string maps answer exactly like a Go map (StrMap.tla).
 
 type SMLoad struct {
-	Via   string   `json:"via"` // map | slice | badslice (mismatched lengths) | none
+	Via   string   `json:"via"`  // map | slice | badslice (mismatched lengths) | none
 	Keys  []string `json:"keys"` // hex
 	Probe []string `json:"probe,omitempty"`
 }
